@@ -8,7 +8,7 @@ import bfsprops
 import pathlib_go as pg
 
 ASSUMPTIONS = [
-    "p is a non-directory path - at the ForceBackup moment and when the transaction began (orig_not_dir_cond of the theorem) - whose parent directories predate the transaction; ForceBackup must have succeeded",
+    "p is a non-directory path - at the ForceBackup moment and when the transaction began (orig_not_dir_cond of the theorem); ForceBackup must have succeeded (ForceBackup below a directory created in the same transaction - fixed finding D22 - is judged too)",
 ]
 
 
